@@ -83,6 +83,8 @@ class Parents:
     def __init__(self, body):
         self.p = {}
         self.nodes = {}
+        self.body = body
+        self._cl = None
         self._build(body, None, None)
 
     def _build(self, n, parent, slot):
@@ -122,10 +124,75 @@ class Parents:
                 return a
         return None
 
+    @staticmethod
+    def always_exits(st):
+        """Does control never fall out of the end of this statement (return / throw / break / continue on every path)?"""
+        if not isinstance(st, dict):
+            return False
+        kd = st.get('k')
+        if kd in ('ret', 'throw', 'break', 'continue'):
+            return True
+        if kd == 'block':
+            return any(Parents.always_exits(x) for x in st.get('s', []))
+        if kd == 'if':
+            return st.get('else') is not None and Parents.always_exits(st.get('then')) and Parents.always_exits(st.get('else'))
+        if kd == 'try':
+            return Parents.always_exits(st.get('body')) and all(Parents.always_exits(h.get('body')) for h in st.get('handlers', []))
+        return False
+
+    def _const_locals(self):
+        """did -> initialiser of the boolean-ish locals that are never written again: `const bool fits = a <= b; if (!fits) ...`
+        tests `a <= b`."""
+        if self._cl is None:
+            self._cl = {}
+            written = set()
+            for st, lhs in stores(self.body):
+                l = strip(lhs)
+                if isinstance(l, dict) and l.get('k') == 'ref' and l.get('dk') == 'local':
+                    written.add(l.get('did'))
+            for did, (ini, ty) in local_inits(self.body).items():
+                if ini is not None and did not in written and ty.replace('const ', '').strip() == 'bool':
+                    self._cl[did] = ini
+        return self._cl
+
+    def resolve_cond(self, c, depth=0):
+        """Condition with never-reassigned bool locals replaced by their initialiser (under !, casts and __builtin_expect)."""
+        if not isinstance(c, dict) or depth > 6:
+            return c
+        k = c.get('k')
+        if k == 'cast' and isinstance(c.get('sub'), dict):
+            return dict(c, sub=self.resolve_cond(c['sub'], depth + 1))
+        if k == 'un' and c.get('op') == '!':
+            return dict(c, sub=self.resolve_cond(c.get('sub'), depth + 1))
+        if k == 'call' and callee(c) == '__builtin_expect' and c.get('args'):
+            return dict(c, args=[self.resolve_cond(c['args'][0], depth + 1)] + list(c['args'][1:]))
+        if k == 'bin' and c.get('op') in ('&&', '||'):
+            return dict(c, lhs=self.resolve_cond(c.get('lhs'), depth + 1), rhs=self.resolve_cond(c.get('rhs'), depth + 1))
+        if k == 'ref' and c.get('dk') == 'local' and c.get('did') in self._const_locals():
+            return self.resolve_cond(self._const_locals()[c['did']], depth + 1)
+        return c
+
     def guards(self, n):
+        return [(self.resolve_cond(c), t) for c, t in self._guards(n)]
+
+    def _guards(self, n):
         """Control-dependence (structured): list of (condition node, truth) for the if/ternary/&&/||
-        ancestors of n.  truth is True when n executes only if the condition was true."""
+        ancestors of n, and for the guard clauses that precede it (an earlier `if (c) return ...;` of an enclosing block means c
+        is false here).  truth is True when n executes only if the condition was true."""
         out = []
+        cur = n
+        for a, slot in self.ancestors(n):
+            if a.get('k') == 'block' and slot == 's':
+                for st in a.get('s', []):
+                    if st is cur:
+                        break
+                    if isinstance(st, dict) and st.get('k') == 'if':
+                        te, ee = self.always_exits(st.get('then')), (st.get('else') is not None and self.always_exits(st.get('else')))
+                        if te and not ee:
+                            out.append((st['c'], False))
+                        elif ee and not te:
+                            out.append((st['c'], True))
+            cur = a
         for a, slot in self.ancestors(n):
             kd = a.get('k')
             if kd == 'if':
@@ -236,6 +303,24 @@ def local_inits(body):
         elif n.get('k') in ('if', 'rangefor') and isinstance(n.get('var'), dict):
             v = n['var']
             out[v['did']] = (v.get('init'), v.get('t', ''))
+    return out
+
+
+def local_values(body):
+    """did -> list of every expression the local can receive (initialiser and plain assignments)."""
+    out = {}
+    for did, (ini, ty) in local_inits(body).items():
+        if ini is not None:
+            out.setdefault(did, []).append(ini)
+    for n in walk(body):
+        if n.get('k') == 'bin' and n.get('op') == '=':
+            l = strip(n.get('lhs'))
+            if isinstance(l, dict) and l.get('k') == 'ref' and l.get('dk') == 'local':
+                out.setdefault(l.get('did'), []).append(n.get('rhs'))
+        elif n.get('k') == 'call' and n.get('op') == '=' and n.get('obj') is not None and n.get('args'):
+            l = strip(n.get('obj'))
+            if isinstance(l, dict) and l.get('k') == 'ref' and l.get('dk') == 'local':
+                out.setdefault(l.get('did'), []).append(n['args'][0])
     return out
 
 
